@@ -397,6 +397,10 @@ def check_c11(an):
     for pl in run.players:
         if pl.kind != 'bundled':
             continue
+        if run.scn.get('family') == 'S2' and getattr(pl, 'verdict', None) != 'seated':
+            # a requester that was turned away (or reset because it arrived after the table was
+            # complete) is no replica of anything: C11 speaks about clients following a board
+            continue
         obs = pl.obs
         who = pl.name
         if obs.exception is not None:
